@@ -74,8 +74,11 @@ def main():
         # 4b independent re-check of the compiled theorems (thorough tier only; it takes a minute or more)
         if ok and tier == 'thorough' and os.environ.get('VERIF_NO_COQCHK') != '1':
             cok, cax, clog = vlib.coqchk(pid)
-            ctx.extra['coqchk_axioms'] = cax
-            ctx.oblige(f'coqchk -o re-checks Props/{pid}.vo and everything it depends on', cok, clog)
+            ctx.extra['coqchk_axioms'] = cax if cok is not None else 'not finished within the time limit'
+            if cok is None:
+                ctx.notes.append(clog + ' (inconclusive; the build step has checked the theorems with coqc)')
+            else:
+                ctx.oblige(f'coqchk -o re-checks Props/{pid}.vo and everything it depends on', cok, clog)
             if cok:
                 badax = vlib.axioms_ok(cax)
                 ctx.oblige('coqchk: axioms of the whole dependency cone within the allow-list', not badax, badax)
